@@ -126,6 +126,7 @@ def parse_output(out, harnesses):
             hr.failed_checks.append({"desc": fm.group(1).strip(), "file": fm.group(2), "line": int(fm.group(3)), "fn": fm.group(4)})
         if "VERIFICATION:- SUCCESSFUL" in part:
             hr.status = "ok"
+            hr.reason = ""
         elif "VERIFICATION:- FAILED" in part:
             sem = [c for c in hr.failed_checks if not NONSEM_PAT.search(c["desc"])]
             nonsem = [c for c in hr.failed_checks if NONSEM_PAT.search(c["desc"])]
@@ -138,6 +139,7 @@ def parse_output(out, harnesses):
                 hr.reason = "bound or tool limit: " + "; ".join(c["desc"] for c in nonsem)[:500]
             elif sem:
                 hr.status = "failed"
+                hr.reason = ""
             else:
                 hr.status = "undecided"
                 hr.reason = "FAILED without a parsed failing check (CBMC error?)"
